@@ -23,7 +23,7 @@ LEVEL_TEXT = ("Base scenarios with depth-dependent sheared, time-dependent curre
 LEVEL_NOTE = "Equality is on f8 output, so 'bit for bit' is exact. Trusts the row tag column (an int instance variable) to follow the particle (C05)."
 RULE = ("case = base scenario + variant list. Non-trivial: at least one particle placed behind a removed/killed one in the state arrays survives for >= 3 further records "
         "(the cross-talk pattern); distinct by base parameters.")
-MANDATORY = ["vertical_advection", "deactivated_rows_alone_pairs", "lonlat_release_pairs", "reversed_time", "subgrid_off_diagonal", "float_day_time_axis", "repeat_pairs", "subset_pairs", "added_rows_pairs", "permuted_pairs", "killed_others_pairs", "time_shift_pairs", "deactivated_others_pairs", "empty_state_before_late_release_pairs", "death_then_output",
+MANDATORY = ["shallow_only_pairs", "killed_newest_pairs", "pid_to_row_mapping_checked", "vertical_advection", "deactivated_rows_alone_pairs", "lonlat_release_pairs", "reversed_time", "subgrid_off_diagonal", "float_day_time_axis", "repeat_pairs", "subset_pairs", "added_rows_pairs", "permuted_pairs", "killed_others_pairs", "time_shift_pairs", "deactivated_others_pairs", "empty_state_before_late_release_pairs", "death_then_output",
              "trajectory_points_compared", "dense", "sparse", "survivor_behind_removed"]
 ASSUMPTIONS = ["diffusion off (as the property states)"]
 TIMEOUT = {"quick": 900, "thorough": 3400}
@@ -118,6 +118,9 @@ def base_spec(case: dict[str, Any]):
         rid += 1
         step = int(rng.choice([0, 0, 0, 1, 3, 5]))
         rows.append(dict(step=step, X=x, Y=y, Z=float(np.round(rng.uniform(0, 150), 2)), rid=rid))
+    # a few particles close to the surface (between the top level of their own column and that of the deepest column)
+    for r_, z_ in zip([r for r in rows if r["step"] == 0][:3], (2.5, 3.5, 4.5)):
+        r_["Z"] = z_
     rows.sort(key=lambda r: r["step"])
     vadv = bool(case["idx"] % 4 == 2)
     if vadv:  # vertical advection: depth changes too, also for particles an IBM has switched off
@@ -194,8 +197,14 @@ def run_case(case: dict[str, Any], wd: Path) -> dict[str, Any]:
             V.append(C.viol(f"variant '{tag}' did not complete: {res.exc}", tb=res.tb[-1200:], **desc))
             return None
         recs = all_records(read_outputs(res.outputs))
+        who: dict[int, int] = {}
         for r in recs:
             outcheck.check_record_pids(r, V, f"{tag}: ")
+            for p_, rid_ in zip(np.asarray(r.pid).tolist(), np.asarray(r.vars["rid"]).astype(int).tolist()):
+                if who.setdefault(int(p_), int(rid_)) != int(rid_) and len(V) < 3:
+                    V.append(C.viol(f"{tag}: pid {p_} is the particle of release row {who[int(p_)]} in one record and of row {rid_} in the record at {r.time}: "
+                                    f"the numbering is not a renumbering of the particles", **desc))
+        sit["pid_to_row_mapping_checked"] = sit.get("pid_to_row_mapping_checked", 0) + len(who)
         return trajectories(recs, scn["run"]["start"], b["dt"])
 
     base = run("base", b["rows"], {})
@@ -221,9 +230,9 @@ def run_case(case: dict[str, Any], wd: Path) -> dict[str, Any]:
 
     variants = ["repeat", "kill", "subset", "shift", "add", "permute", "deactivate"][: case["nvar"] + 1]
     if case["nvar"] == 4:
-        variants = ["kill", "add", "permute", "shift", "deactivate", "late_only"] if case["idx"] % 2 else ["repeat", "kill", "subset", "deactivate", "kill_all_early"]
+        variants = ["kill", "add", "permute", "shift", "deactivate", "late_only", "kill_newest"] if case["idx"] % 2 else ["repeat", "kill", "subset", "deactivate", "kill_all_early", "shallow_only"]
     else:
-        variants += ["late_only", "kill_all_early"]
+        variants += ["late_only", "kill_all_early", "shallow_only", "kill_newest"]
     nontrivial = False
     for var in variants:
         if len(V) > 2:
@@ -249,6 +258,22 @@ def run_case(case: dict[str, Any], wd: Path) -> dict[str, Any]:
                     if vpos and any(pos[r] > min(vpos) and len([p for p in btr[r] if p[0] > s + 2]) >= 1 for r in keep if r in pos):
                         sit["survivor_behind_removed"] = sit.get("survivor_behind_removed", 0) + 1
                         nontrivial = True
+        elif var == "shallow_only":
+            keep_rows = [r for r in b["rows"] if r["Z"] <= 4.5 and r["step"] == 0]
+            if keep_rows:
+                o = run("shallow_only", keep_rows, {})
+                if o:
+                    compare("only the rows released close to the surface kept (all deeper particles removed)", o, [r["rid"] for r in keep_rows], "shallow_only_pairs")
+        elif var == "kill_newest":
+            # the newest particle (highest pid so far) is killed while older ones live on, and a later release follows two or more steps later
+            U = sorted({r["step"] for r in b["rows"]})
+            ks = [k for k in range(len(U) - 1) if U[k + 1] - U[k] >= 2]
+            if ks:
+                s = U[ks[0]]
+                victim = [r["rid"] for r in b["rows"] if r["step"] == s][-1]
+                o = run("kill_newest", b["rows"], {str(s): [victim]})
+                if o:
+                    compare(f"the newest particle (row {victim}) killed by the IBM at step {s}, next release at step {U[ks[0] + 1]}", o, [r for r in rids if r != victim], "killed_newest_pairs")
         elif var == "deactivate":
             # other particles become inactive (alive, not moved): they stay in the state arrays in front of the others
             early = [r["rid"] for r in b["rows"] if r["step"] == 0]
